@@ -61,6 +61,8 @@ LINE_SRC = {                              # line-based sources: (file, template 
     "textline": ("dc/t.q1", lambda i, W: W),
     "gmapname": ("dc/gophermap", lambda i, W: "0%s\t/dc/f.q1" % W),
     "gmapsel": ("dc/gophermap", lambda i, W: "0x%d\t%s" % (i, W)),
+    "gmapnoname": ("dc/gophermap", lambda i, W: "0\t/dc/%s" % W),                 # empty display string
+    "linknoname": ("dc/.Links", lambda i, W: "Numb=%d\nPath=/dc/%s\nType=0\n" % (i, W)),     # no Name= line
     "gmapurl": ("dc/gophermap", lambda i, W: "hx%d\tURL:http://h/%s" % (i, W)),
     "gmaphost": ("dc/gophermap", lambda i, W: "1x%d\t/s%d\t%s\t70" % (i, i, W)),
     "gmap7": ("dc/gophermap", lambda i, W: "7x%d\t/%s" % (i, W)),
